@@ -622,3 +622,146 @@ pub type BTreeMapSN = std::collections::BTreeMap<String, Nat>;
 // a cheap wire value under opt against a wide expected record whose typed attempt is expensive
 sim_struct!(SmallCfg { schema_version: String });
 sim_struct!(WideCfg { configuration_option_number_00: Option<u64>, configuration_option_number_01: Option<u64>, configuration_option_number_02: Option<u64>, configuration_option_number_03: Option<u64>, configuration_option_number_04: Option<u64>, configuration_option_number_05: Option<u64>, configuration_option_number_06: Option<u64>, configuration_option_number_07: Option<u64>, configuration_option_number_08: Option<u64>, configuration_option_number_09: Option<u64>, configuration_option_number_10: Option<u64>, configuration_option_number_11: Option<u64>, configuration_option_number_12: Option<u64>, configuration_option_number_13: Option<u64>, configuration_option_number_14: Option<u64>, configuration_option_number_15: Option<u64>, configuration_option_number_16: Option<u64>, configuration_option_number_17: Option<u64>, configuration_option_number_18: Option<u64>, configuration_option_number_19: Option<u64>, configuration_option_number_20: Option<u64>, configuration_option_number_21: Option<u64>, configuration_option_number_22: Option<u64>, configuration_option_number_23: Option<u64>, configuration_option_number_24: Option<u64>, configuration_option_number_25: Option<u64>, configuration_option_number_26: Option<u64>, configuration_option_number_27: Option<u64>, configuration_option_number_28: Option<u64>, configuration_option_number_29: Option<u64>, configuration_option_number_30: Option<u64>, configuration_option_number_31: Option<u64>, configuration_option_number_32: Option<u64>, configuration_option_number_33: Option<u64>, configuration_option_number_34: Option<u64>, configuration_option_number_35: Option<u64>, configuration_option_number_36: Option<u64>, configuration_option_number_37: Option<u64>, configuration_option_number_38: Option<u64>, configuration_option_number_39: Option<u64>, configuration_option_number_40: Option<u64>, configuration_option_number_41: Option<u64>, configuration_option_number_42: Option<u64>, configuration_option_number_43: Option<u64>, configuration_option_number_44: Option<u64>, configuration_option_number_45: Option<u64>, configuration_option_number_46: Option<u64>, configuration_option_number_47: Option<u64>, configuration_option_number_48: Option<u64>, configuration_option_number_49: Option<u64>, configuration_option_number_50: Option<u64>, configuration_option_number_51: Option<u64>, configuration_option_number_52: Option<u64>, configuration_option_number_53: Option<u64>, configuration_option_number_54: Option<u64>, configuration_option_number_55: Option<u64>, configuration_option_number_56: Option<u64>, configuration_option_number_57: Option<u64>, configuration_option_number_58: Option<u64>, configuration_option_number_59: Option<u64>, configuration_option_number_60: Option<u64>, configuration_option_number_61: Option<u64>, configuration_option_number_62: Option<u64>, configuration_option_number_63: Option<u64>, schema_version: u32 });
+
+// ---------------------------------------------------------------- round-2 strengthening
+
+// a reserved value decoded before a variant in the same argument
+sim_struct!(RsvE { a: candid::Reserved, m: Vec<u8>, z: E1 });
+sim_struct!(RsvR { a: candid::Reserved, z: Result<Nat, String> });
+
+// trees with an asymmetric subtype relation between them (NatTree <: IntTree, not the reverse)
+#[derive(CandidType, Deserialize, Clone, Debug)]
+pub struct NatTree {
+    pub v: Nat,
+    pub kids: Vec<NatTree>,
+}
+#[derive(CandidType, Deserialize, Clone, Debug)]
+pub struct IntTree {
+    pub v: Int,
+    pub kids: Vec<IntTree>,
+}
+impl SimTy for NatTree {
+    fn name() -> String {
+        "NatTree".into()
+    }
+    fn sim_type(env: &mut SEnv) -> SType {
+        named(env, "NatTree", |env| {
+            let l = |s: &str| SLabel::Named(s.to_string());
+            SType::record(vec![(l("v"), Nat::sim_type(env)), (l("kids"), SType::vec(NatTree::sim_type(env)))])
+        })
+    }
+    fn gen(rng: &mut Rng, s: usize) -> Self {
+        let n = if s == 0 { 0 } else { rng.below(3) as usize };
+        NatTree { v: Nat::gen(rng, 0), kids: (0..n).map(|_| NatTree::gen(rng, sub(s))).collect() }
+    }
+    fn av(&self, c: bool) -> AV {
+        AV::record(vec![(own_hash("v"), self.v.av(c)), (own_hash("kids"), self.kids.av(c))])
+    }
+}
+impl SimTy for IntTree {
+    fn name() -> String {
+        "IntTree".into()
+    }
+    fn sim_type(env: &mut SEnv) -> SType {
+        named(env, "IntTree", |env| {
+            let l = |s: &str| SLabel::Named(s.to_string());
+            SType::record(vec![(l("v"), Int::sim_type(env)), (l("kids"), SType::vec(IntTree::sim_type(env)))])
+        })
+    }
+    fn gen(rng: &mut Rng, s: usize) -> Self {
+        let n = if s == 0 { 0 } else { rng.below(3) as usize };
+        IntTree { v: Int::gen(rng, 0), kids: (0..n).map(|_| IntTree::gen(rng, sub(s))).collect() }
+    }
+    fn av(&self, c: bool) -> AV {
+        AV::record(vec![(own_hash("v"), self.v.av(c)), (own_hash("kids"), self.kids.av(c))])
+    }
+}
+
+// a list upgraded by an optional field whose type is the (recursive, hence knotted) list type
+// itself and whose label sorts before the fields present on the wire
+#[derive(CandidType, Deserialize, Clone, Debug)]
+pub struct OldList(pub Option<Box<OldNode>>);
+#[derive(CandidType, Deserialize, Clone, Debug)]
+pub struct OldNode {
+    pub v: Nat,
+    pub next: OldList,
+}
+#[derive(CandidType, Deserialize, Clone, Debug)]
+pub struct NewList(pub Option<Box<NewNode>>);
+#[allow(non_snake_case)]
+#[derive(CandidType, Deserialize, Clone, Debug)]
+pub struct NewNode {
+    pub A: NewList,
+    pub v: Nat,
+    pub next: NewList,
+}
+impl SimTy for OldList {
+    fn name() -> String {
+        "OldList".into()
+    }
+    fn sim_type(env: &mut SEnv) -> SType {
+        named(env, "OldList", |env| {
+            let l = |s: &str| SLabel::Named(s.to_string());
+            SType::opt(SType::record(vec![(l("v"), Nat::sim_type(env)), (l("next"), OldList::sim_type(env))]))
+        })
+    }
+    fn gen(rng: &mut Rng, s: usize) -> Self {
+        let mut cur = OldList(None);
+        for _ in 0..rng.range(0, s.min(8) as u64) {
+            cur = OldList(Some(Box::new(OldNode { v: Nat::gen(rng, 0), next: cur })));
+        }
+        cur
+    }
+    fn av(&self, c: bool) -> AV {
+        match &self.0 {
+            None => AV::Opt(None),
+            Some(n) => AV::some(AV::record(vec![(own_hash("v"), n.v.av(c)), (own_hash("next"), n.next.av(c))])),
+        }
+    }
+}
+impl SimTy for NewList {
+    fn name() -> String {
+        "NewList".into()
+    }
+    fn sim_type(env: &mut SEnv) -> SType {
+        named(env, "NewList", |env| {
+            let l = |s: &str| SLabel::Named(s.to_string());
+            SType::opt(SType::record(vec![(l("A"), NewList::sim_type(env)), (l("v"), Nat::sim_type(env)), (l("next"), NewList::sim_type(env))]))
+        })
+    }
+    fn gen(rng: &mut Rng, s: usize) -> Self {
+        let mut cur = NewList(None);
+        for _ in 0..rng.range(0, s.min(6) as u64) {
+            let side = if rng.chance(1, 4) { NewList(Some(Box::new(NewNode { A: NewList(None), v: Nat::gen(rng, 0), next: NewList(None) }))) } else { NewList(None) };
+            cur = NewList(Some(Box::new(NewNode { A: side, v: Nat::gen(rng, 0), next: cur })));
+        }
+        cur
+    }
+    fn av(&self, c: bool) -> AV {
+        match &self.0 {
+            None => AV::Opt(None),
+            Some(n) => AV::some(AV::record(vec![(own_hash("A"), n.A.av(c)), (own_hash("v"), n.v.av(c)), (own_hash("next"), n.next.av(c))])),
+        }
+    }
+}
+
+// service reference with method names outside ASCII
+define_service!(pub ServRefU : { "größe": candid::func!(() -> (Nat) query); "名前": candid::func!((String) -> ()); "🐂": candid::func!(() -> ()) });
+impl SimTy for ServRefU {
+    fn name() -> String {
+        "ServRefU".into()
+    }
+    fn sim_type(_: &mut SEnv) -> SType {
+        SType::service(vec![
+            ("größe".into(), SType::Func { args: vec![], rets: vec![SType::Prim(Prim::Nat)], mode: Mode::Query }),
+            ("名前".into(), SType::Func { args: vec![SType::Prim(Prim::Text)], rets: vec![], mode: Mode::Update }),
+            ("🐂".into(), SType::Func { args: vec![], rets: vec![], mode: Mode::Update }),
+        ])
+    }
+    fn gen(rng: &mut Rng, _: usize) -> Self {
+        ServRefU(Service { principal: Principal::from_slice(&gen_principal(rng)) })
+    }
+    fn av(&self, _: bool) -> AV {
+        AV::Service(self.0.principal.as_slice().to_vec())
+    }
+}
